@@ -14,7 +14,7 @@ for f in selftest/*.diff seeded/*/patch.diff; do
   [ -f "$f" ] || continue
   case "$f" in
     selftest/*) PID=$(basename "$f" | cut -d_ -f1);;
-    *) PID=$(basename $(dirname "$f"));;
+    *) PID=$(basename $(dirname "$f") | cut -c1-3);;
   esac
   if [ $# -gt 0 ]; then echo " $* " | grep -q " $PID " || continue; fi
   echo " $CLAIMED " | grep -q " $PID " || { echo "SKIP  $f ($PID not claimed)"; continue; }
